@@ -401,7 +401,7 @@ def run(replay=None):
             pre = rng.choice([[], [PUBLIC]])
             add(main, pre, P(sh, root, aslist, *anyvar(main)), ('pub' if pre else 'priv', root, 'list' if aslist else 'rel', cls(sh)))
         # (3) the split between private and public derivation at every position, both spellings
-        for sh in sample(shapes[1] + shapes[2] + shapes[3] + shapes[3], 700 if thorough else 110):
+        for sh in sample(shapes[1] + shapes[2] + shapes[3] + shapes[3], 700 if thorough else 90):
             for j in (range(0, len(sh) + 1) if thorough else [rng.randrange(0, len(sh) + 1)]):
                 how = rng.choice(['public()', 'M'])
                 pre = [P(sh[:j])] if j else []
@@ -483,7 +483,7 @@ def run(replay=None):
                 for pre in ([], [PUBLIC]):
                     pk = 'pub' if pre else 'priv'
                     if net is not None:         # (omitted: groups 1 and 2)
-                        for root in (['m', 'M'] if st is main else ['M']):
+                        for root in (['m', 'M'] if st is main and (thorough or not pre) else ['M']):
                             for sh in (shapes[1] if st is main else sample(shapes[1], 6)):
                                 add(st, pre, P(sh, root, False, net, conv), ('args', 'path', pk, root, tag, cls(sh)))
                         for sh in sample(shapes[2] + shapes[3], 40 if thorough else 5):
